@@ -64,4 +64,10 @@ theorem mergeServers_rel (m trackers : SetMap) (p s : Nat) :
         · right; exact ⟨t', ht', h1, h2⟩
   rw [hgen, rel_normalise]
 
+/-- `get_sharemap_of_preexisting_shares` (= the inversion loop of `shares_by_server`) relates a
+server to a share exactly when `existing_shares[server]` lists the share -/
+theorem preexisting_rel (existing : SetMap) (p s : Nat) :
+    (p, s) ∈ rel (sharesByServer existing) ↔ (p, s) ∈ relOfServermap existing := by
+  rw [mem_rel_iff, (sharesByServer_spec existing).2 (s, p), mem_rel_iff]
+
 end Tahoe.Happiness
